@@ -247,6 +247,12 @@ def build_pairs(tier):
 
     # --- other output methods / encodings
     add('text-method', sheet('<xsl:for-each select="//text()">[<xsl:value-of select="."/>]</xsl:for-each>&lt;&amp;', method='text'), D_MIX)
+    # html output writes 512-unit blocks; raw supplementary characters (comment, script) of both parities cross the block boundaries:
+    # file targets buffer 8192 units, stream / callback / C-API data targets 512
+    EMO = '\U0001F600'
+    add('html-nonbmp-raw-blocks', sheet('<html><head><script>var s="<xsl:value-of select="/r/e"/>";</script></head><body><xsl:comment><xsl:value-of select="/r/e"/> and <xsl:value-of select="/r/e"/></xsl:comment>'
+                                        '<p><xsl:value-of select="/r/e"/></p></body></html>', method='html', out_attrs='indent="no"'),
+        '<r><e>' + EMO * 300 + '</e></r>')
     add('html-method-xmlish', sheet('<html><body class="c"><p>a &amp; b &lt; c</p><div title="t&quot;q"><span><xsl:value-of select="count(//node())"/></span></div></body></html>', method='html', out_attrs='indent="no"'), D_MIX)
     add('html-method', sheet('<html><head><title>t</title></head><body><br/><p>é<xsl:value-of select="/r/a/b[2]"/></p><img src="x y.png"/><script>if (a &lt; b) x();</script></body></html>', method='html', out_attrs='indent="no"'), D_MIX)
     add('encoding-latin1', sheet('<o a="{/r/w}é"><xsl:value-of select="/r/w"/>ü</o>', out_attrs='encoding="ISO-8859-1"'), D_TEXT)
